@@ -1935,9 +1935,9 @@ class StreamingDecoder(object):
 
             for chunk in isEndOfStream(self._substrate):
                 if isinstance(chunk, SubstrateUnderrunError):
-                    yield
-
-                break
+                    # can't tell if the stream has ended: report
+                    # underrun and probe again on the next iteration
+                    yield chunk
 
             if chunk:
                 break
